@@ -112,6 +112,8 @@ def parseEre (p : Bytes) : Option (List Item) :=
           | none => none
           | some (a, 42 :: r') => go fuel r' ({ atom := a, star := true } :: acc)
           | some (a, r') => go fuel r' ({ atom := a, star := false } :: acc)
+        | 92 :: c :: 42 :: r => go fuel r ({ atom := .lit c, star := true } :: acc)
+        | 92 :: c :: r => go fuel r ({ atom := .lit c, star := false } :: acc)
         | c :: 42 :: r => go fuel r ({ atom := .lit c, star := true } :: acc)
         | c :: r => if c == 36 || c == 42 then none else go fuel r ({ atom := .lit c, star := false } :: acc)
         | [] => none
@@ -194,6 +196,7 @@ def toLowerC (c : Nat) : Nat := if 65 ≤ c && c ≤ 90 then c + 32 else c
 /-- the character → ERE fragment switch of `convert_wildcard_into_extended_regex` -/
 def ereFragment (w : Nat) : Bytes :=
   if w == 58 then [58]
+  else if w == 94 then [92, 94]                 -- `\^` (after the repair)
   else if w == 35 then [91, 94, 46, 93]
   else if w == 42 then [91, 94, 46, 93, 42]
   else if toUpperC w != toLowerC w then [91, toUpperC w, toLowerC w, 93]
